@@ -13,7 +13,7 @@ Z3_STATS = {"checks": 0, "seconds": 0.0, "sat": 0, "unsat": 0, "unknown": 0}
 ENGINE_PATCHES = [
     "crosshair.libimpl.relib._Match.groupdict rebuilt on group() (0.0.110 returns index pairs and drops unmatched groups)",
     "str.__mod__ registration: the two '%r' % dict.keys() logger.debug format strings of curtsies.window and the ValueError message of get_cursor_position ('Bytes preceding cursor position ... %r') are returned unformatted (log / message text is not the subject; formatting would realise the symbolic values)",
-    "copyreg.pickle(FrozenAttributes / FmtStr / Chunk) so CrossHair's own deepcopy bookkeeping can copy them (plain copy.copy of a FmtStr raises RecursionError / 'Cannot change value.')",
+    "copyreg.pickle(FrozenAttributes / FmtStr) so CrossHair's own deepcopy bookkeeping can copy them (plain copy.copy of a FmtStr raises RecursionError, deepcopy of FrozenAttributes 'Cannot change value.'); Chunk is copied by the default protocol (instance dict preserved)",
     "SymbolicInt.__mul__/__rmul__ with ' ' returns a SegStr of spaces (only in SegStr harnesses)",
     "z3.Solver.check wrapped to count queries and solver seconds",
     "StateSpace.__init__ wrapped: module-level containers of the curtsies modules are restored to their snapshot at the start of every path (chx/statereset.py)",
@@ -66,7 +66,8 @@ def _fix_logging_format():
     # handed to hash()/containers, so FmtStr and Chunk get explicit reducers (curtsies itself never copies them)
     from curtsies.formatstring import FmtStr, Chunk
     copyreg.pickle(FmtStr, lambda f: (FmtStr, tuple(f.chunks)))
-    copyreg.pickle(Chunk, lambda c: (Chunk, (c._s, dict(c._atts))))
+    # (no reducer for Chunk: with FrozenAttributes reducible, the default shallow / deep copy of a Chunk works and
+    #  keeps its instance dict - including memoised strings - exactly as on plain CPython)
 
     def pf(self, other):
         with NoTracing():
